@@ -291,6 +291,44 @@ func runC09(c *Ctx) error {
 			}
 		}
 	}
+	// announcements whose own size sweeps across the pooled-buffer tier boundaries (600 and 1600 bytes
+	// minus header/MAC margins) in steps smaller than the link margin: routers with several links
+	// must get such an announcement out on every link
+	bspecs := []spec{{"line", 8}}
+	if c.Thorough() {
+		bspecs = []spec{{"line", 8}, {"tree", 14}, {"line", 16}, {"ring", 14}}
+	}
+	for _, sp := range bspecs {
+		pad := func(i int) int {
+			if i < 8 {
+				return 1000 + 300 + 12*i
+			}
+			return 1000 + 1300 + 12*(i-8)
+		}
+		ms, err := newMesh(c, sp.kind, sp.n, c.Rng.IntN(3), pad, ids[:sp.n])
+		if err != nil {
+			return err
+		}
+		label := fmt.Sprintf("%s-%d/boundary-sized-announcements", sp.kind, sp.n)
+		ms.announceAll(c.Rng.Perm(sp.n))
+		sizes := map[int]bool{}
+		for _, q := range ms.w.queue {
+			sizes[len(q.data)] = true
+		}
+		st := ms.floodAndCheck(func(n int) int { return c.Rng.IntN(n) }, 41, label)
+		pairs, bad := ms.checkReach(label)
+		c.CountN("deliveries", st.deliveries)
+		c.CountN("pairs-checked", pairs)
+		c.Count("topology:" + sp.kind + "/boundary-sizes")
+		c.NonTrivial(label)
+		var sz []int
+		for k := range sizes {
+			sz = append(sz, k)
+		}
+		sort.Ints(sz)
+		c.Sample(map[string]any{"mesh": label, "own_announcement_sizes": sz, "deliveries": st.deliveries, "pairs": pairs, "unreached": bad})
+	}
+
 	// all delivery orders (up to a budget) for 3-router meshes
 	budget := c.Pick(40, 600)
 	for _, kind := range []string{"line", "ring"} {
